@@ -80,7 +80,25 @@ M = [
  ('H53', 'C11', 'ciw/node.py', "        if individual.service_time == \"resample\":\n            individual.service_time = self.get_service_time(individual)\n", "        if individual.service_time == \"resample\":\n            individual.service_time = individual.original_service_time\n"),
  ('H55', 'C17', 'ciw/trackers/state_tracker.py', "        Changes the state of the system when a customer is released.\n        \"\"\"\n        self.state -= 1\n", "        Changes the state of the system when a customer is released.\n        \"\"\"\n        self.state -= 2 if blocked else 1\n"),
  ('H56', 'C10', 'ciw/arrival_node.py', "        for _ in range(batch):\n", "        for _ in range(batch + (1 if self.number_of_individuals % 17 == 16 else 0)):\n"),
-]
+ # ---- H60+: clause validation, third batch (codes no seeded / mechanical mutant had made fire)
+ ('H60', 'C02', 'ciw/node.py', "            arrival_date=self.now,\n            waiting_time=nan,\n", "            arrival_date=self.now if individual.id_number % 7 else self.now - 1,\n            waiting_time=nan,\n"),
+ ('H61', 'C02', 'ciw/node.py', "            arrival_date=self.now,\n            waiting_time=nan,\n", "            arrival_date=self.now,\n            waiting_time=nan if individual.id_number % 3 else 0.0,\n"),
+ ('H62', 'C02', 'ciw/node.py', "            waiting_time=individual.service_start_date - individual.arrival_date,\n            service_start_date=individual.service_start_date,\n            service_time=individual.original_service_time,\n            service_end_date=nan,\n",
+        "            waiting_time=individual.service_start_date - individual.arrival_date + (1 if individual.id_number % 5 == 0 else 0),\n            service_start_date=individual.service_start_date,\n            service_time=individual.original_service_time,\n            service_end_date=0.0,\n"),
+ ('H63', 'C02', 'ciw/node.py', "            service_start_date=nan,\n            service_time=nan,\n            service_end_date=nan,\n            time_blocked=nan,\n            exit_date=individual.exit_date,\n", "            service_start_date=nan,\n            service_time=0.0,\n            service_end_date=nan,\n            time_blocked=nan,\n            exit_date=individual.exit_date,\n"),
+ ('H64', 'C01', 'ciw/arrival_node.py', "            self.number_of_individuals += 1\n            self.number_of_individuals_per_class[self.next_class] += 1\n", "            self.number_of_individuals += 1\n            self.number_of_individuals_per_class[self.next_class] += 1 if self.number_of_individuals % 9 else 2\n"),
+ ('H65', 'C09', 'ciw/routing/routing.py', "        Chooses the exit node with probability 1.\n        \"\"\"\n        return self.simulation.nodes[-1]\n", "        Chooses the exit node with probability 1.\n        \"\"\"\n        return self.simulation.nodes[-1] if ind.id_number % 6 else self.simulation.nodes[1]\n"),
+ ('H66', 'C10', 'ciw/arrival_node.py', "        self.event_dates_dict[self.next_node][self.next_class] = self.increment_time(\n            self.event_dates_dict[self.next_node][self.next_class],\n            self.inter_arrival(self.next_node, self.next_class),\n        )\n",
+        "        self.event_dates_dict[self.next_node][self.next_class] = self.increment_time(\n            self.event_dates_dict[self.next_node][self.next_class],\n            self.inter_arrival(self.next_node, self.next_class),\n        )\n        if self.number_of_individuals % 11 == 10:\n            self.inter_arrival(self.next_node, self.next_class)\n"),
+ ('H67', 'C13', 'ciw/arrival_node.py', "                self.record_baulk(next_node, next_individual)\n                self.simulation.nodes[-1].accept(next_individual, completed=False)\n", "                self.record_baulk(next_node, next_individual)\n                if next_individual.id_number % 4: self.simulation.nodes[-1].accept(next_individual, completed=False)\n"),
+ ('H68', 'C18', 'ciw/simulation.py', "            state: self.nodes[1].increment_time(time_of_deadlock, -self.times_dictionary[state])\n", "            state: self.nodes[1].increment_time(self.times_dictionary[state], -time_of_deadlock)\n"),
+ ('H69', 'C18', 'ciw/simulation.py', "            if current_state not in self.times_dictionary:\n                self.times_dictionary[current_state] = self.current_time\n", "            if current_state not in self.times_dictionary or len(self.times_dictionary) % 5 == 4:\n                self.times_dictionary[current_state] = self.current_time\n"),
+ ('H70', 'C14', 'ciw/simulation.py', "            self.current_time = next_active_node.next_event_date\n\n        self.wrap_up_servers(max_simulation_time)\n", "            self.current_time = next_active_node.next_event_date\n\n        if 3 < max_simulation_time and self.current_time < max_simulation_time + 0.3:\n            next_active_node = self.event_and_return_nextnode(next_active_node)\n        self.wrap_up_servers(max_simulation_time)\n"),
+ ('H71', 'C19', 'ciw/processor_sharing.py', "        if self.number_of_individuals <= self.ps_capacity:\n            next_individual.service_start_date = self.now\n", "        if self.number_of_individuals <= self.ps_capacity + (1 if next_individual.id_number % 5 == 0 else 0):\n            next_individual.service_start_date = self.now\n"),
+ ('H72', 'C20', 'ciw/exactnode.py', "        return Decimal(str(original)) + Decimal(str(increment))\n\n    def get_service_time(self, ind):", "        return Decimal(str(original)) + Decimal(str(increment)) + (Decimal('1e-7') if Decimal(str(original)) > 20 else 0)\n\n    def get_service_time(self, ind):"),
+ ('H73', 'C11', 'ciw/node.py', "                self.preempt(individual_to_preempt, individual)\n", "                self.preempt(individual_to_preempt, individual)\n            elif individual.priority_class == least_priority and individual.id_number % 9 == 0 and in_service:\n                self.preempt(in_service[0], individual)\n"),
+ ('H74', 'C04', 'ciw/node.py', "        server.cust = False\n        server.busy = False\n", "        server.cust = False\n        server.busy = (server.id_number == 2 and individual.id_number % 7 == 0)\n"),
+ ('H75', 'C07', 'ciw/node.py', "        individual.is_blocked = True\n        self.simulation.statetracker.change_state_block(self, next_node, individual)\n", "        individual.is_blocked = True\n        if individual.id_number % 5 == 0 and individual.server: self.detatch_server(individual.server, individual)\n        self.simulation.statetracker.change_state_block(self, next_node, individual)\n"),]
 
 
 def sh(cmd, cwd=None, env=None, timeout=3600):
